@@ -266,6 +266,12 @@ def run(chk: Check) -> None:
                         " I --- 13:133379 --:------ 13:133379 3EF0 003 00C8FF", " W --- 12:010740 01:145038 --:------ 2309 003 0107D0",
                         " I --- 01:145038 12:010740 --:------ 2309 003 0107D0", "RQ --- 34:092243 01:145038 --:------ 000A 001 01",
                         " I --- 01:145038 --:------ 01:145038 1F09 003 FF0532"], [0.5, 0.1, 1.0, 3.0, 0.1, 2.0, 5.0]))
+        # a one-zone setpoint / temperature right after the controller's sync-cycle array of the same code (a schedule switchpoint at
+        # hh:30:00 after the hh:29:58 sync), an earlier one-zone packet of that zone still held
+        for code, a, b in (("2309", "07D0", "0898"), ("30C9", "07C3", "07D1")):
+            corpus.append(([f" I --- 01:145038 --:------ 01:145038 {code} 003 01{a}", " I --- 01:145038 --:------ 01:145038 1F09 003 FF0532",
+                            f" I --- 01:145038 --:------ 01:145038 {code} 009 00{a}01{a}02{a}", f" I --- 01:145038 --:------ 01:145038 {code} 003 01{b}",
+                            " I --- 01:145038 --:------ 01:145038 000A 006 011001F40DAC"], [0.5, 30.0, 0.1, 2.0, 20.0]))
         n_plain_corpus = len(corpus)
         for ep in range(n_ep + len(corpus)):
             fixed_gaps = None
